@@ -503,14 +503,6 @@ func (in *Interp) CallFunc(fi *FuncInfo, recv Val, args []Val) Val {
 		env.define(info.Defs[fi.Decl.Recv.List[0].Names[0]], recv)
 	}
 	in.bindParams(env, info, fi.Decl.Type, fi.Obj.Type().(*types.Signature), args)
-	// named results
-	if fi.Decl.Type.Results != nil {
-		for _, f := range fi.Decl.Type.Results.List {
-			for _, n := range f.Names {
-				env.define(info.Defs[n], Unk{"zero"})
-			}
-		}
-	}
 	c := in.execBlock(fi.Pkg, env, fi.Decl.Body.List)
 	if c == ctlReturn {
 		return in.retVal
